@@ -163,6 +163,17 @@ def cases(rng, tier):
                                 "script": [{"status": code, "to": ["http", "b.example", 8080, "/final"], "form": "abs"},
                                            {"status": 302, "to": ["http", "c.example", None, "/third"], "form": "abs"},
                                            {"status": 200, "to": None, "form": "abs"}, {"status": 200, "to": None, "form": "abs"}]})
+    # nothing but credentials, an https start (through a proxy: a tunnel, where the manager adds no headers of its own) and a redirect to an
+    # http URL of another origin (through a proxy: forwarded): stripping leaves an empty mapping on the way into the second route
+    for hk in ("dict", "hd", "default"):
+        for code in (301, 302, 307):
+            for hs in ([["Authorization", "s1"]], [["Cookie", "c=1"], ["authorization", "s1"]]):
+                for kind in ("manager", "proxy"):
+                    out.append({"kind": kind, "redirect": True, "assert_same_host": False, "start": ["https", "a.example", None, "/start"], "method": "GET", "body": False,
+                                "headers": hs, "hkind": hk, "kw": ["retry", {"total": 5, "redirect": 5}], "pool": ["none"],
+                                "script": [{"status": code, "to": ["http", "b.example", 8080, "/final"], "form": "abs"},
+                                           {"status": 302, "to": ["http", "c.example", None, "/third"], "form": "abs"},
+                                           {"status": 200, "to": None, "form": "abs"}, {"status": 200, "to": None, "form": "abs"}]})
     # through a forwarding proxy the pool in hand is the proxy's: a redirect to the proxy's own address
     for code in (301, 302, 303, 307, 308):
         for hk in ("dict", "hd", "default"):
